@@ -111,25 +111,31 @@ def decoder():
     return xform.transform(idc.InstanceDecoder.decode, overrides=ov), idc
 
 
-def template(W, H, NI, MB):
-    """a concrete template with the given bin, item count and minimum bin number"""
+def template(W, H, NI, MB, tk="area"):
+    """a concrete template with the given bin, item count and minimum bin number.  tk="area": the bin need follows from the total
+    area (MB - 1 full-bin items plus unit squares); tk="half": it follows from MB items larger than half a bin in both dimensions
+    (the geometric lower bound exceeds the area bound, total area <= (MB - 1) bins)"""
     from moptipyapps.binpacking2d.instance import Instance
     rows = []
-    if MB > 1:
-        rows.append([W, H, MB - 1])
-    rest = NI - (MB - 1)
-    rows.append([1, 1, rest])
+    if tk == "half":
+        rows.append([W // 2 + 1, H // 2 + 1, MB])
+        rows.append([1, 1, NI - MB])
+    else:
+        if MB > 1:
+            rows.append([W, H, MB - 1])
+        rest = NI - (MB - 1)
+        rows.append([1, 1, rest])
     inst = Instance("t", W, H, rows)
     if inst.lower_bound_bins != MB or inst.n_items != NI:
         raise core.EngineError(f"template construction failed: lb={inst.lower_bound_bins} n={inst.n_items}")
     return inst
 
 
-def real_decode(W, H, NI, MB, x):
+def real_decode(W, H, NI, MB, x, tk="area"):
     import numpy as np
     from moptipyapps.binpacking2d.instgen.instance_space import InstanceSpace
     from moptipyapps.binpacking2d.instgen.inst_decoding import InstanceDecoder
-    sp = InstanceSpace(template(W, H, NI, MB))
+    sp = InstanceSpace(template(W, H, NI, MB, tk))
     dec = InstanceDecoder(sp)
     y = []
     dec.decode(np.array(x, dtype=float), y)
@@ -143,7 +149,7 @@ def replay(w):
         return replay_errors_sym(w)
     W, H, NI, MB, x = w["W"], w["H"], w["NI"], w["MB"], w["x"]
     try:
-        sp, inst, inst2 = real_decode(W, H, NI, MB, x)
+        sp, inst, inst2 = real_decode(W, H, NI, MB, x, w.get("tk", "area"))
     except (IndexError, ValueError, ZeroDivisionError) as ex:
         return True, dict(raised=f"{type(ex).__name__}: {ex}"[:200])
     A = W * H
@@ -226,7 +232,7 @@ def consistent(W, H, NI, MB, x, saved, model):
     return True
 
 
-def job_decode(W, H, NI, MB, slack, timeout_s=900, signs=None):
+def job_decode(W, H, NI, MB, slack, timeout_s=900, signs=None, tk="area"):
     dec, idc = decoder()
     dim = 2 * (NI - MB) + 2 * slack
     A = W * H
@@ -237,11 +243,15 @@ def job_decode(W, H, NI, MB, slack, timeout_s=900, signs=None):
 
     class Dec:
         pass
+    from moptipyapps.binpacking2d.instgen.instance_space import InstanceSpace
+    real_space_attrs = {k_: v_ for k_, v_ in vars(InstanceSpace(template(W, H, NI, MB, tk))).items() if isinstance(v_, (int, str))}
 
     def h(eng):
         _cnt[0] = 0
         del PRODS[:]
         sp = Space()
+        for k_, v_ in real_space_attrs.items():        # every attribute a real InstanceSpace of this template has (item ranges, total area, ...)
+            setattr(sp, k_, v_)
         sp.bin_width, sp.bin_height, sp.min_bins, sp.n_items, sp.inst_name = W, H, MB, NI, "tn"
         d = Dec()
         d.space = sp
@@ -286,7 +296,7 @@ def job_decode(W, H, NI, MB, slack, timeout_s=900, signs=None):
             x = None
         if x is None:
             return inconclusive(f"counterexample of the abstraction is not realisable by floats (spurious): {v.label}", **common)
-        w = dict(W=W, H=H, NI=NI, MB=MB, slack=slack, x=x, label=v.label)
+        w = dict(W=W, H=H, NI=NI, MB=MB, slack=slack, x=x, label=v.label, tk=tk)
         bad, info = replay(w)
         w["observed"] = info
         if bad:
@@ -442,6 +452,11 @@ def jobs(tier):
     cfg = [(4, 1, 3, 1, 0, 0), (1, 4, 3, 1, 0, 0), (5, 1, 3, 1, 1, 0), (3, 3, 3, 1, 0, 0), (3, 3, 3, 1, 1, 0), (3, 3, 4, 2, 0, 0), (3, 3, 4, 2, 1, 2), (4, 3, 3, 2, 2, 0), (2, 2, 3, 1, 1, 0), (2, 2, 3, 1, 2, 2), (3, 2, 3, 2, 2, 0)]
     if tier == "thorough":
         cfg += [(3, 2, 3, 2, 3, 3), (4, 3, 3, 2, 3, 6), (4, 3, 4, 2, 2, 5), (4, 2, 4, 1, 1, 4), (4, 4, 4, 2, 1, 4), (5, 3, 4, 2, 2, 5), (3, 3, 5, 2, 1, 5), (6, 4, 3, 2, 2, 3)]
+    # templates whose bin need comes from items larger than half a bin (total area at most MB - 1 bins)
+    for (W, H, NI, MB, sl) in [(3, 3, 3, 2, 1), (5, 5, 3, 2, 2), (4, 3, 3, 2, 2)] + ([(3, 3, 4, 2, 2), (5, 3, 4, 2, 1), (3, 3, 4, 2, 1)] if tier == "thorough" else []):
+        js.append(Job(f"decode-half/{W}x{H}/n{NI}/b{MB}/s{sl}", job_decode, dict(W=W, H=H, NI=NI, MB=MB, slack=sl, signs=[], tk="half",
+                                                                                   timeout_s=900 if tier == "quick" else 3000),
+                      "decoded_instance", 1000 if tier == "quick" else 3300, weight=NI + sl))
     for (W, H, NI, MB, sl, nsplit) in cfg:
         for signs in itertools.product((0, 1), repeat=nsplit):
             tag = "".join(map(str, signs)) or "all"
@@ -453,7 +468,7 @@ def jobs(tier):
 
 def meta(tier):
     return dict(
-        bounds=dict(templates="concrete small templates (strips 4x1, 1x4, 5x1; bins 2x2, 3x3, 4x3; 3-4 items; min_bins 1-2; 0-3 slack pairs; thorough adds 4x2, 4x4, 5x3, 6x4 bins and 5 items), large ones split over the sign bits of the first entries",
+        bounds=dict(templates="concrete small templates (strips 4x1, 1x4, 5x1; templates whose bin need comes from items larger than half a bin - 3x3, 4x3, 5x5 bins with 1-2 slack pairs; bins 2x2, 3x3, 4x3; 3-4 items; min_bins 1-2; 0-3 slack pairs; thorough adds 4x2, 4x4, 5x3, 6x4 bins and 5 items), large ones split over the sign bits of the first entries",
                     similarity="Errors objective on symbolic templates with 1-3 item types (thorough 4), dimensions <= 50: 0 on the template, no exception and [0,1] on every instance with the template's bin and item count",
                     x="every entry: sign bit + arbitrary integer truncation of each product int(k*x_i) in [-k, k] (covers -1, 0, 1 and all values between)"),
         outside=["lower_bound_bins == min_bins follows from the area invariant only together with C03 (checked on replayed witnesses)", "hardness objectives (inner optimisation runs)",
